@@ -16,7 +16,7 @@ def run(ctx, factor):
                 "macro files; compiled regex of the macro rule must equal that of the original (inlined) rule on the "
                 "real code; the macro definitions are deep-compared before/after expansion; expanded tree vs the model's")
     for _ in range(ctx.budget(500, 8000) * factor):
-        doc = gen_rules.rule(g, {"ops", "logic", "times", "ops_logic", "not"}, depth=2)
+        doc = gen_rules.rule(g, {"ops", "logic", "times", "ops_logic", "not", "deref"}, depth=2)
         mdoc, files, forms = gen_macros.factor(g, doc)
         if not forms:
             continue
